@@ -121,8 +121,9 @@ def doc_safety(docs):
                 for k, c in n['m']:
                     walk(c, path + (sc_py(k),), unsafe)
             elif 'q' in n:
+                op = (n.get('t') or {}).get('k') in ('append', 'extend')    # elements of an operator land behind the existing ones: no fixed position
                 for i, c in enumerate(n['q']):
-                    walk(c, path + (i,), unsafe)
+                    walk(c, path + ((f'*op*{i}' if op else i),), unsafe)
         walk(d['raw'], (), d.get('safe') is False)
         out.append(m)
     return out
